@@ -885,7 +885,7 @@ preprocess ()
             }
           else if (!strcmp ("if", yyp))
             {
-              cond = cond_get_exp (0);
+              cond = (cond_get_exp (0) != 0);
               if (*outptr != '\n')
                 yyerrorp ("Condition too complex in %cif");
               else
